@@ -39,8 +39,45 @@ def eq_stage(R, tier, rng):
         R.record(line, impl, m, sp, nt, "eq/model+dictionary", py=py)
 
 
+def add_stage(R, tier, rng):
+    """t1 + t2: implementation against Hash.tbl_add (extracted: refused unless the key arrays coincide, the items of the sum otherwise) and
+    against the key-wise sum of the two dictionaries (the property leaves a refusal open, so a refused sum is compared with the model only)"""
+    import numpy as np
+    from npstructures import HashTable
+    from vlib import show, parse, oracle, guarded
+    cases = []
+    for trial in range(900 if tier == "thorough" else 250):
+        k = rng.randint(1, 6)
+        k1 = rng.sample(list(range(-20, 40)) + [2 ** 40 + 3, -(2 ** 40) + 1], k)
+        k2 = list(k1)
+        if trial % 3 == 1: rng.shuffle(k2)                                          # same key set, another order (refused when colliding keys swap)
+        s1 = rng.choice([None, None, 0, 5]); s2 = rng.choice([None, None, 3])
+        v1 = [rng.randint(-9, 9) for _ in k1] if s1 is None else []
+        v2 = [rng.randint(-900, 900) for _ in k2] if s2 is None else []
+        m = rng.choice([None, 1, 2, 3, 7])
+        def impl():
+            t1 = HashTable(k1, np.array(v1) if s1 is None else s1, mod=m); t2 = HashTable(k2, np.array(v2) if s2 is None else s2, mod=m)
+            try: s = t1 + t2
+            except ValueError:       # refused: justified exactly when the two key arrays differ (tbl_add_refusal); numpy's argsort is not stable, so the
+                return ["refused", t1._keys.tolist() != t2._keys.tolist()]           # order inside a bucket is the implementation's own
+            return sorted([int(a), int(b)] for a, b in zip(np.asarray(s._keys.ravel()).tolist(), np.asarray(s._flat_values()).tolist())) if isinstance(s._values, (int, np.integer)) \
+                else sorted([int(a), int(b)] for a, b in s.items())
+        line = "hash_add %s %s %s %s %s %s %s" % (show(k1), show(v1), show(s1), show(k2), show(v2), show(s2), show(m))
+        cases.append((line, guarded(impl), k >= 2, f"HashTable({k1}, {v1 if s1 is None else s1}, mod={m}) + HashTable({k2}, {v2 if s2 is None else s2}, mod={m})"))
+    out = oracle([c[0] for c in cases])
+    for (line, impl, nt, py), o in zip(cases, out):
+        if o.startswith("ERR"): mo = sp = "oracle-error: " + o[:80]
+        else:
+            mo, sp = parse(o)
+            mo = None if mo is None else sorted(mo); sp = sorted(sp)
+            if isinstance(impl, list) and impl[:1] == ["refused"]: mo = sp = ["refused", True]      # a refusal is right iff the key arrays really differ
+            elif mo is None: mo = sp                                                # the model's (stable) layouts differ, the implementation's happened to agree
+        R.record(line, impl, mo, sp, nt, "add/model+dictionary", py=py)
+
+
 def run(R, tier, rng):
     eq_stage(R, tier, rng)
+    add_stage(R, tier, rng)
     fam_hash2.extra_stage(R, tier, rng, False)
     fam_hash2.big_stage(R, tier, rng, False)
     fam_hash2.run_family2(R, tier, rng, False)
